@@ -67,11 +67,33 @@ func verifElem(name string) ugo.Object {
 // VerifC04Container: strings/bytes up to maxlen symbolic bytes (any byte,
 // incl. non-UTF-8), arrays/maps/sync-maps up to 2 elements of symbolic kind.
 func VerifC04Container() {
-	k := verifrt.Choice("kind", 5)
+	k := verifrt.Choice("kind", 6)
 	var o ugo.Object
 	hasFloatZero := false
 	ml := verifrt.Param("maxlen")
 	switch k {
+	case 5:
+		// key order: 2-3 distinct keys drawn from a pool (empty, one byte,
+		// invalid UTF-8, one a prefix of another) in every order of insertion
+		// (= order of encoding), values small ints and one empty string
+		pool := [...]string{"", "a", "k\xff", "ab"}
+		n := 2 + verifrt.Choice("len", 2)
+		m := make(ugo.Map, n)
+		for i := 0; i < n; i++ {
+			key := pool[verifrt.Choice("key", len(pool))]
+			_, dup := m[key]
+			verifrt.Assume(!dup)
+			if i == 1 {
+				m[key] = ugo.String("")
+			} else {
+				m[key] = ugo.Int(int64(i) + verifrt.Int64("v")%2)
+			}
+		}
+		if verifrt.Bool("sync") {
+			o = &ugo.SyncMap{Value: m}
+		} else {
+			o = m
+		}
 	case 0:
 		o = ugo.String(verifrt.String("s", verifrt.Choice("len", ml+1)))
 	case 1:
@@ -108,7 +130,7 @@ func VerifC04Container() {
 	if err == nil && got != nil {
 		verifrt.Assert(ugo.VerifSameObject(got, o), "roundtrip-identity")
 		_, data2, err2 := verifRoundTrip(got)
-		if _, isMap := o.(ugo.Map); !isMap && k != 4 {
+		if _, isMap := o.(ugo.Map); !isMap && k != 4 && k != 5 {
 			verifrt.Assert(err2 == nil && bytes.Equal(data, data2), "reencode-stable")
 		} else {
 			verifrt.Assert(err2 == nil && len(data) == len(data2), "reencode-stable-size")
